@@ -140,6 +140,21 @@ pub fn check_annotations(html: &str, cfg: &CfgSpec, width: usize, colours: Colou
     let css = true;
     let _ = css;
     let dom = odom::parse(html.as_bytes());
+    // identifying characters are unique only up to the pool size: skip documents with more text
+    // nodes than labels (two text items showing the same character)
+    {
+        let mut seen: HashMap<usize, usize> = HashMap::new();
+        for (i, (_, text)) in dom.text_items().iter().enumerate() {
+            for l in text.chars().filter_map(label_of) {
+                if let Some(prev) = seen.insert(l, i) {
+                    if prev != i {
+                        st.class("skipped_too_many_text_nodes");
+                        return Ok(());
+                    }
+                }
+            }
+        }
+    }
     let exp = expected_vectors(&dom, colours);
     let r = render_lines(&cfg, html.as_bytes(), width);
     if let Some(b) = r.bad() {
